@@ -332,7 +332,8 @@ class C13(Prop):
                     events.append(['snap', {'semv': conc._sem_value, 'value': conc._semaphore._value,
                                             'holders': sorted(holding), 'running': sorted(running),
                                             'nwaiters': len(conc._semaphore._waiters or ()),
-                                            'ended': sorted(ended_set), 'asked': list(asked)}])
+                                            'ended': sorted(ended_set), 'asked': list(asked),
+                                            'unanswered': None if (ft.closing or ft.lost) else s.unanswered_request_count()}])
                 fr = framing.BitcoinFramer()
                 n = case['n']
                 viol = []
@@ -464,7 +465,8 @@ class C13(Prop):
                 nl = lambda xs: c_list([c_N(v) for v in xs], 'N')
                 s = (f"{{| ts_semv := {c_Z(x['semv'])}; ts_value := {c_Z(x['value'])}; ts_holders := {nl(x['holders'])}; "
                      f"ts_running := {nl(x['running'])}; ts_nwaiters := {c_nat(x['nwaiters'])}; "
-                     f"ts_ended := {nl(x['ended'])}; ts_asked := {nl(x['asked'])} |}}")
+                     f"ts_ended := {nl(x['ended'])}; ts_asked := {nl(x['asked'])}; "
+                     f"ts_unanswered := {'None' if x.get('unanswered') is None else '(Some ' + c_nat(x['unanswered']) + ')'} |}}")
                 if out:
                     out[-1] = (out[-1][0], s)
                 continue
